@@ -181,7 +181,12 @@ impl AstLowering {
                     // 1. Known struct from current file (in struct_names map)
                     // 2. Uppercase identifier heuristic (works cross-file like old codegen)
                     let is_known_struct = self.struct_names.contains_key(name);
-                    let is_uppercase = name.chars().next().map(|c| c.is_uppercase()).unwrap_or(false);
+                    // The heuristic never applies to a name that is known to be a value: a function declared in this
+                    // file or a variable in scope (e.g. a closure) may legally start with an uppercase letter.
+                    let is_known_value =
+                        self.function_names.contains(name) || self.scopes.iter().any(|s| s.contains_key(name));
+                    let is_uppercase =
+                        !is_known_value && name.chars().next().map(|c| c.is_uppercase()).unwrap_or(false);
 
                     if is_known_struct || is_uppercase {
                         // Get type if known, otherwise Unknown (will be inferred at emit time)
